@@ -548,6 +548,29 @@ func shouldFilterLocationTrackedIP(candidateIP netip.Addr) bool {
 	return candidateIP.Is6() && (candidateIP.IsLinkLocalUnicast() || candidateIP.IsLinkLocalMulticast())
 }
 
+// publishableGatheredAddress reports whether an address learnt from the network (the mapped
+// address of a STUN response, the relayed address of a TURN allocation) may be published:
+// its network type has to be enabled, and it must not be one of the IPv6 addresses that are
+// never gathered (link-local, site-local, IPv4-compatible).
+func (a *Agent) publishableGatheredAddress(network string, ip net.IP) bool {
+	addr, ok := netip.AddrFromSlice(ip)
+	if !ok {
+		return false
+	}
+	addr = addr.Unmap()
+
+	networkType, err := determineNetworkType(network, addr)
+	if err != nil || !slices.Contains(configuredNetworkTypes(a.networkTypes), networkType) {
+		return false
+	}
+
+	if addr.Is6() && (!isSupportedIPv6Partial(addr.AsSlice()) || shouldFilterLocationTrackedIP(addr)) {
+		return false
+	}
+
+	return true
+}
+
 // shouldFilterLocationTracked returns if this candidate IP should be filtered out from
 // any candidate publishing/notification for location tracking reasons.
 func shouldFilterLocationTracked(candidateIP net.IP) bool {
@@ -815,6 +838,11 @@ func (a *Agent) gatherCandidatesSrflxUDPMux(ctx context.Context, urls []*stun.UR
 
 						return
 					}
+					if !a.publishableGatheredAddress(network, xorAddr.IP) {
+						a.log.Warnf("server reflexive address %s from %s is not usable with %s", xorAddr.IP, url, network)
+
+						return
+					}
 
 					conn, err := a.udpMuxSrflx.GetConnForURL(a.localUfrag, url.String(), localAddr)
 					if err != nil {
@@ -948,6 +976,11 @@ func (a *Agent) gatherCandidatesSrflx(ctx context.Context, urls []*stun.URI, net
 
 		ip := xorAddr.IP
 		port := xorAddr.Port
+		if !a.publishableGatheredAddress(network, ip) {
+			closeConnAndLog(conn, a.log, "server reflexive address %s from %s is not usable with %s", ip, url, network)
+
+			return
+		}
 
 		lAddr := conn.LocalAddr().(*net.UDPAddr) //nolint:forcetypeassert
 		srflxConfig := CandidateServerReflexiveConfig{
@@ -1432,6 +1465,16 @@ func (a *Agent) addRelayCandidates(ctx context.Context, ep relayEndpoint) {
 	)
 	if ep.conn != nil && ep.address != nil {
 		addresses, ok = a.resolveRelayAddresses(ep)
+	}
+	if ok {
+		// Relayed addresses of a network type that is not enabled are not published.
+		publishable := make([]net.IP, 0, len(addresses))
+		for _, ip := range addresses {
+			if a.publishableGatheredAddress(ep.network, ip) {
+				publishable = append(publishable, ip)
+			}
+		}
+		addresses, ok = publishable, len(publishable) > 0
 	}
 	if !ok {
 		// No candidate will own the allocation: release it, the TURN client and the local socket.
